@@ -4,9 +4,10 @@ import (
 	"fmt"
 	"math"
 	"math/rand"
-	"time"
+	"strconv"
 	"strings"
 	"sync/atomic"
+	"time"
 
 	eval "github.com/onheap/eval"
 
@@ -46,11 +47,11 @@ func (s *scripted) Seed(int64) {}
 type drawKind int
 
 const (
-	dNode drawKind = iota // Intn(10) at an inner level
-	dLeafNode             // Intn(10) at level 0
-	dLeafVal              // Intn(100)
-	dSub                  // Intn(level)
-	dArity                // Intn(3)
+	dNode     drawKind = iota // Intn(10) at an inner level
+	dLeafNode                 // Intn(10) at level 0
+	dLeafVal                  // Intn(100)
+	dSub                      // Intn(level)
+	dArity                    // Intn(3)
 )
 
 type nextDraw struct {
@@ -346,7 +347,13 @@ func c20CheckV(r *rep.Run, w *c20worker, c c20cfg, level int, how string, res ev
 	// the engine: it must compile with the given variables and evaluate without failing to the same value
 	e, cerr := w.h.Compile(w.cfg, res.Expr, 0)
 	if cerr != nil {
-		if _, isPanic := cerr.(*drive.PanicErr); !isPanic && level == 0 && !strings.HasPrefix(strings.TrimSpace(res.Expr), "(") && r.KnownOpen(c20Known) {
+		// the listed finding: a level-0 result that is a bare variable name or a
+		// bare integer (nothing else: a bare `true`, say, is a different failure)
+		atom := strings.TrimSpace(res.Expr)
+		_, isInt := strconv.ParseInt(atom, 10, 64)
+		_, isVar := vf.val(atom)
+		bareAtom := isInt == nil || isVar || vf.dne(atom)
+		if _, isPanic := cerr.(*drive.PanicErr); !isPanic && level == 0 && bareAtom && !strings.HasPrefix(atom, "(") && r.KnownOpen(c20Known) {
 			r.HitKnown(c20Known)
 			return
 		}
@@ -528,8 +535,8 @@ func c20(r *rep.Run) {
 	{
 		phases := []map[string]interface{}{
 			{"n_a": 7, "n_b": int32(-9), "n_c": 0, "b_p": true, "b_q": false, "d_u": eval.DNE},
-			{"n_a": 0, "n_b": int64(4), "n_c": -3, "b_p": false, "b_q": false, "d_u": eval.DNE},
-			{"n_a": -1, "n_b": 0, "n_c": 12, "b_p": false, "b_q": true, "d_u": eval.DNE},
+			{"n_a": 0, "n_b": int64(4), "n_c": eval.DNE, "b_p": false, "b_q": false, "d_u": 5},
+			{"n_a": -1, "n_b": 0, "n_c": 12, "b_p": eval.DNE, "b_q": true, "d_u": eval.DNE},
 		}
 		var hists [][]int
 		for a := 0; a < 3; a++ {
